@@ -569,11 +569,16 @@ impl Xot {
     /// You can use this function just before serializing the tree to XML
     /// using [`Xot::write`] or [`Xot::to_string`].
     pub fn create_missing_prefixes(&mut self, node: Node) -> Result<(), Error> {
-        let node = if self.is_document(node) {
-            self.document_element(node).unwrap()
-        } else {
-            node
-        };
+        if self.is_document(node) {
+            // a document has one element at the top, a fragment can have
+            // any number of them, including none
+            for child in self.children(node).collect::<Vec<_>>() {
+                if self.is_element(child) {
+                    self.create_missing_prefixes(child)?;
+                }
+            }
+            return Ok(());
+        }
         if !self.is_element(node) {
             return Err(Error::NotElement(node));
         };
